@@ -83,8 +83,8 @@ register("C02", module="histchecks", fn="case_c02", replay="replay_c02", binarie
          assumptions=HIST_ASSUME, components={"real": REAL_WHOLE, "stub": STUB_WHOLE})
 
 register("C03", module="histchecks", fn="case_c03", replay="replay_c03", binaries=("simplz",),
-         cases={"quick": 28, "thorough": 1200}, budget={"quick": 280, "thorough": 3300}, level="exploration",
-         rule="as C01; after every build an immediate second build of the unchanged tree must run zero commands, and every command that ran in an incremental build must belong to a target whose rendered definition, configuration, source bytes or dependency output contents (taken from the reference build of that state) changed since its command last ran; commands are observed through an action log written by every command outside the repository",
+         cases={"quick": 48, "thorough": 1200}, budget={"quick": 280, "thorough": 3300}, level="exploration",
+         rule="as C01 (every other case with a directory cache, returns to earlier states, partial reverts and initial builds of one target only, so that restores from the cache take the place of commands); after every build an immediate second build of the unchanged tree must run zero commands, and every command that ran in an incremental build must belong to a target whose rendered definition, configuration, source bytes or dependency output contents (taken from the reference build of that state) changed since its command last ran; commands are observed through an action log written by every command outside the repository",
          assumptions=HIST_ASSUME + ["must-run is not asserted here (C01 decides that through outputs)"], components={"real": REAL_WHOLE, "stub": STUB_WHOLE})
 
 register("C32", module="histchecks", fn="case_c32", replay="replay_c32", binaries=("simplz",),
